@@ -5,6 +5,7 @@ use std::net::SocketAddrV4;
 use std::net::SocketAddrV6;
 
 use anyhow::Result;
+use anyhow::bail;
 use tokio_util::bytes::Buf;
 use tokio_util::bytes::BufMut;
 use tokio_util::bytes::BytesMut;
@@ -34,6 +35,10 @@ pub fn encode(addr: &Address, dst: &mut BytesMut) {
 }
 
 pub fn decode(src: &mut BytesMut) -> Result<Address> {
+    match try_decode_at(src, 0)? {
+        Some(len) if src.remaining() >= len => {}
+        _ => bail!("insufficient bytes for address, found {} bytes", src.remaining()),
+    }
     let addr_type = Socks5AddressType::try_from(src.get_u8())?;
     match addr_type {
         Socks5AddressType::Ipv4 => {
@@ -64,11 +69,15 @@ pub fn length(addr: &Address) -> usize {
     }
 }
 
-pub fn try_decode_at(src: &BytesMut, at: usize) -> Result<usize> {
-    match Socks5AddressType::try_from(src[at])? {
-        Socks5AddressType::Ipv4 => Ok(1 + 4 + 2),
-        Socks5AddressType::Domain => Ok(1 + 1 + src[at + 1] as usize + 2),
-        Socks5AddressType::Ipv6 => Ok(1 + 8 * 2 + 2),
+/// Length of the address starting at `at`, or `None` if the bytes that determine it have not arrived yet
+pub fn try_decode_at(src: &BytesMut, at: usize) -> Result<Option<usize>> {
+    let Some(&addr_type) = src.get(at) else {
+        return Ok(None);
+    };
+    match Socks5AddressType::try_from(addr_type)? {
+        Socks5AddressType::Ipv4 => Ok(Some(1 + 4 + 2)),
+        Socks5AddressType::Domain => Ok(src.get(at + 1).map(|len| 1 + 1 + *len as usize + 2)),
+        Socks5AddressType::Ipv6 => Ok(Some(1 + 8 * 2 + 2)),
     }
 }
 
